@@ -386,6 +386,20 @@ func relErrWithin(g ref.Num, x ref.X, k int64, p int) string {
 
 func genBigInt(t *rapid.T) *big.Int {
 	var i *big.Int
+	if ir(t, 0, 99, "farBeyond") == 0 {
+		// tens of thousands of digits beyond the range (the result is an infinity): the digit counts at which a
+		// 16-bit exponent counter that is incremented per stripped digit would wrap (2^15 - 6176, 2^16 - 6176,
+		// 2^16, 2^16 + 6111, 2^17 - 6176) and a few in between
+		n := []int{6200, 9000, 20000, 26590, 26600, 32768, 40000, 59360, 59400, 65536, 65600, 71650, 71700, 100000, 124900, 131072}[ir(t, 0, 15, "digits")] + ir(t, -3, 40, "dOff")
+		i = new(big.Int).Mul(genDigits(t, ir(t, 1, 35, "lead")), ref.Pow10(n))
+		if rapid.Bool().Draw(t, "plusOne") {
+			i.Add(i, ref.One)
+		}
+		if rapid.Bool().Draw(t, "neg") {
+			i = new(big.Int).Neg(i)
+		}
+		return i
+	}
 	switch ir(t, 0, 7, "bigKind") {
 	case 0:
 		i = genCoef(t)
